@@ -23,25 +23,37 @@ RULE = ("seeded random constraint graphs given to the real build_computation_gra
         "non-trivial = at least one constraint of arity >= 2; distinct = distinct case JSON")
 MODELLED = ("the whole builder (neighbour derivation, both stable re-sorts, root choice, token-passing "
             "DFS, forest loop, preorder node listing) is an executable Gallina model compared node by "
-            "node and in list order with the real graph; the validity checker pt_check is proved sound "
-            "w.r.t. PT_valid (the statement of C17) and evaluated inside Coq on every tree the real "
-            "builder returns (<= 400 variables); direct theorems about the builder model are partial "
-            "(constraints exact, node ids / link targets are variables); 'never crashes' is checked "
-            "only by running the real code on long structures")
+            "node and in list order with the real graph.  THEOREMS about that model, for every "
+            "well-formed graph of any size (distinct variables, no constraint lists a variable twice, "
+            "constraints range over the variables): it never exhausts its recursion fuel and its result "
+            "is PT_valid -- one node per variable, converse and repeat-free links, no cycle, every "
+            "constraint-sharing pair in ancestor/descendant relation and linked by a tree or back edge, "
+            "exact constraints, roots = parentless nodes (build_valid, pt_nodes, pt_links_converse, "
+            "pt_acyclic, pt_edges_ancestral, pt_roots, pt_constraints_exact).  Independently the validity "
+            "checker pt_check is proved sound w.r.t. PT_valid and evaluated inside Coq on every tree the "
+            "real builder returns (<= 400 variables), and the executable wf_graphb (proved to imply the "
+            "theorems' hypothesis) is evaluated on every graph handed to the real builder.  'Never "
+            "crashes' of CPython (stack/time) is checked only by running the real code on long structures")
 META = dict(
-    level_text=("Proof (Coq) that the executable validity checker pt_check is sound for the full "
-                "statement PT_valid of C17 (one node per variable, converse parent/children and "
-                "pseudo-parent/pseudo-children links, no cycle, every constraint-sharing pair linked "
-                "by a tree or back edge to an ancestor, exact constraints) for trees of any size; "
-                "pt_check is evaluated in Coq on every tree the real builder returns in the run, and a "
-                "faithful executable model of the builder is compared with the real one node by node. "
-                "Direct all-input theorems about the builder model cover the constraint lists and the "
-                "node/link universe only."),
-    level_note=("Partial: DFS correctness of the builder model for ALL graphs is not a theorem; it is "
-                "established per returned tree by the verified checker (translation validation). "
-                "Absence of crashes (recursion depth) is a property of CPython, exercised by the driver "
-                "on structures up to 3000 variables. Trusted: Coq kernel/vm_compute, M_PseudoTree.v, harness."),
-    technique="Coq-verified result checker + executable Gallina model with differential correspondence run",
+    level_text=("Proof (Coq), all graphs and all sizes, that the executable model of the pseudo-tree "
+                "builder (token-passing DFS of handle_token/_propagate, forest loop, node listing) "
+                "terminates within its recursion fuel and returns a valid DFS forest: one node per "
+                "variable, converse parent/children and pseudo-parent/pseudo-children links, no cycle, "
+                "every constraint-sharing pair linked by a tree or back edge to an ancestor, exact "
+                "constraints, roots = parentless nodes (Hoare-style contract over the traversal: "
+                "visited set, token = root-to-node path, every edge of a finished node has carried the "
+                "token).  The model is compared node by node with the real builder on generated graphs; "
+                "in addition a checker pt_check, proved sound for the same statement, is evaluated in "
+                "Coq on every tree the real builder returns."),
+    level_note=("The theorems are about the Gallina model (tied to the code by the differential run) and "
+                "assume a well-formed constraint graph (distinct variables; a constraint does not list a "
+                "variable twice and ranges over the problem's variables) -- evaluated on every generated "
+                "input; build_needs_wf_refuted shows the assumption is necessary (real code: ValueError). "
+                "Absence of crashes (recursion depth, time) is a property of CPython, exercised by the "
+                "driver on structures up to 3000 variables. Trusted: Coq kernel/vm_compute, "
+                "M_PseudoTree.v, harness."),
+    technique=("Coq proof of DFS correctness of an executable Gallina model (invariant over the explicit "
+               "token traversal) + Coq-verified result checker + differential correspondence run"),
     design_ref="DESIGN.md §5 C17",
 )
 
